@@ -251,11 +251,11 @@ Print Assumptions C09_tr_term_cmd.
 (* non-vacuity: the program's zero-initialised statics satisfy the invariant, and the translated functions RUN on
    that memory: push "abc", push "xy" -- the second push lands in front of the first: ibuf = x y a b c --, a read
    returns 'x' and records it, a third push "abc" goes between the read key and the unread ones: x|a b c y a b c;
-   term_cmd hands out the record of length 1.  The last line: a push of 5000 cells into the empty queue is clipped
-   to sizeof(ibuf) *)
+   term_cmd hands out the record of length 1.  The last line: a push of sizeof(ibuf) + 904 cells into the empty queue is
+   clipped to sizeof(ibuf) *)
 Example C09_tr_term_push_runs :
   let G := length GenCFuncs.cglobals in
-  let m0 := GenCFuncs.cglobals ++ [map CLite.VInt [97; 98; 99]%Z; map CLite.VInt [120; 121]%Z; [CLite.VUndef]; repeat (CLite.VInt 65%Z) 5000] in
+  let m0 := GenCFuncs.cglobals ++ [map CLite.VInt [97; 98; 99]%Z; map CLite.VInt [120; 121]%Z; [CLite.VUndef]; repeat (CLite.VInt 65%Z) (Z.to_nat (IBUFSZ + 904))] in
   let run f args m := CLite.callf GenCFuncs.cprog 10 1 f args m in
   TrTerm.term_at m0 0%Z 0%Z GenCFuncs.gb_ibuf 0%Z GenCFuncs.gb_icmd /\
   match run GenCFuncs.F_term_push [CLite.VPtr G 0%Z; CLite.VInt 3%Z] m0 with
@@ -280,7 +280,7 @@ Example C09_tr_term_push_runs :
       | _ => False end
     | _ => False end
   | _ => False end /\
-  match run GenCFuncs.F_term_push [CLite.VPtr (G + 3) 0%Z; CLite.VInt 5000%Z] m0 with
-  | CLite.Ok (_, m1) => TrTerm.peek1 m1 GenCFuncs.G_ibuf_cnt = Some IBUFSZ /\ TrTerm.peek m1 GenCFuncs.G_ibuf 5000 = repeat (CLite.VInt 65%Z) (Z.to_nat IBUFSZ)
+  match run GenCFuncs.F_term_push [CLite.VPtr (G + 3) 0%Z; CLite.VInt (IBUFSZ + 904)%Z] m0 with
+  | CLite.Ok (_, m1) => TrTerm.peek1 m1 GenCFuncs.G_ibuf_cnt = Some IBUFSZ /\ TrTerm.peek m1 GenCFuncs.G_ibuf (Z.to_nat (IBUFSZ + 904)) = repeat (CLite.VInt 65%Z) (Z.to_nat IBUFSZ)
   | _ => False end.
 Proof. cbv zeta. split; [exact (TrTerm.term_at_start _)|]. vm_compute. repeat split; reflexivity. Qed.
